@@ -39,6 +39,43 @@ pub fn from_pem(pem: &[u8]) -> Option<rustls_pki_types::CertificateDer<'static>>
     Some(rustls_pki_types::CertificateDer::from(der))
 }
 
+/// the DER inside the first PEM block with the given label (base64 decoded by hand: no PEM crate needed)
+#[cfg(feature = "backend-rustls")]
+pub fn pem_block(pem: &[u8], label: &str) -> Option<Vec<u8>> {
+    let text = std::str::from_utf8(pem).ok()?;
+    let b = format!("-----BEGIN {}-----", label);
+    let e = format!("-----END {}-----", label);
+    let begin = text.find(&b)? + b.len();
+    let end = text[begin..].find(&e)? + begin;
+    let b64: Vec<u8> = text[begin..end].bytes().filter(|b| !b.is_ascii_whitespace()).collect();
+    let val = |c: u8| -> Option<u32> {
+        Some(match c {
+            b'A'..=b'Z' => (c - b'A') as u32,
+            b'a'..=b'z' => (c - b'a') as u32 + 26,
+            b'0'..=b'9' => (c - b'0') as u32 + 52,
+            b'+' => 62,
+            b'/' => 63,
+            _ => return None,
+        })
+    };
+    let mut der = vec![];
+    for q in b64.chunks(4) {
+        let pad = q.iter().filter(|&&c| c == b'=').count();
+        let mut n = 0u32;
+        for &c in q {
+            n = (n << 6) | if c == b'=' { 0 } else { val(c)? };
+        }
+        der.push((n >> 16) as u8);
+        if pad < 2 {
+            der.push((n >> 8) as u8);
+        }
+        if pad < 1 {
+            der.push(n as u8);
+        }
+    }
+    Some(der)
+}
+
 pub fn backend() -> &'static str {
     if cfg!(feature = "backend-native") {
         "native-tls"
